@@ -10,7 +10,7 @@ git checkout -q -- . ; rm -f tarpc/tests/demo_*.rs
 if ! git apply "$wt/OUT/patch.diff"; then echo "APPLY FAILED" | tee -a "$out"; exit 1; fi
 cp "$wt/OUT/${demo}.rs" "$wt/tarpc/tests/${demo}.rs"
 echo "## suite with change" >> "$out"
-cargo test --workspace --offline --no-fail-fast 2>&1 | grep -E "^test result|FAILED|failed|panicked" | grep -v "^test .* ok" | head -40 >> "$out"
+cargo test --workspace --offline --no-fail-fast 2>&1 | grep -E "^test result|FAILED|failed|panicked" | head -60 >> "$out"
 echo "## demo with change" >> "$out"
 cargo test --offline -p tarpc --features full --test "$demo" 2>&1 | grep -E "^test |test result" >> "$out"
 git apply -R "$wt/OUT/patch.diff"
